@@ -362,6 +362,57 @@ def case_strategy():
     return case()
 
 
+def scenario_strategy():
+    """Constructed shapes that random tables almost never hit: self/mutual reference passed
+    through arguments, a parameter used both plainly and under #/##, commas produced by
+    argument expansion, nested self calls."""
+    from hypothesis import strategies as st
+
+    def M(name, params, body, variadic=None):
+        return {"name": name, "params": params, "variadic": variadic, "body": body}
+
+    num = st.sampled_from(["0", "1", "2", "7"])
+
+    @st.composite
+    def case(draw):
+        kind = draw(st.sampled_from(["selfref-arg", "plain-and-paste", "comma-from-arg", "selfref-arg", "plain-and-paste"]))
+        n1, n2 = draw(num), draw(num)
+        tab = []
+        if kind == "selfref-arg":
+            shape = draw(st.sampled_from(["self", "mutual", "paren", "fn-self"]))
+            if shape == "self":
+                tab.append(M("X", None, [n1, "+", "X"]))
+            elif shape == "paren":
+                tab.append(M("X", None, ["(", n1, "+", "X", ")"]))
+            elif shape == "mutual":
+                tab += [M("X", None, ["Y", n1]), M("Y", None, ["X", n2])]
+            else:
+                tab.append(M("X", ["a"], ["a", "+", "X", "(", "a", ")"]))
+            fbody = draw(st.sampled_from([["a"], ["a", "+", "a"], ["(", "a", ")", "u"], ["a", "G", "(", "a", ")"], ["G", "(", "a", ")"]]))
+            tab.append(M("F", ["a"], fbody))
+            tab.append(M("G", ["a"], draw(st.sampled_from([["a"], ["a", "v"], ["F", "(", "a", ")"]]))))
+            arg = ["X", "(", n2, ")"] if shape == "fn-self" else ["X"]
+            inv = draw(st.sampled_from([["F", "("] + arg + [")"], ["F", "(", "F", "("] + arg + [")", ")"], ["F", "("] + arg + [")"] + arg, ["G", "(", "F", "("] + arg + [")", ")"], ["F", "(", n1] + arg + [")"]]))
+        elif kind == "plain-and-paste":
+            pieces = draw(st.lists(st.sampled_from([["a"], ["a", "##", "0"], ["a", "##", "_T"], ["#", "a"], ["+"], ["G", "(", "a", ")"], ["x", "##", "a"], ["a"]]), min_size=2, max_size=4))
+            tab.append(M("F", ["a"], [t for pc in pieces for t in pc]))
+            tab.append(M("G", ["a"], draw(st.sampled_from([["a"], ["a", "*", "2"], ["u"]]))))
+            tab.append(M("X", None, draw(st.sampled_from([[n1, n2], [n1], ["Y"], ["G", "(", n1, ")"]]))))
+            tab.append(M("Y", None, [n2]))
+            arg = draw(st.sampled_from([["X"], ["F", "(", n1, ")"], ["G", "(", n2, ")"], ["X", "Y"], [n1], ["F", "(", n1, ")", "+", n2], ["Y"]]))
+            inv = ["F", "("] + arg + [")"]
+        else:
+            tab.append(M("X", None, [n1, ",", n2]))
+            tab.append(M("G", ["a", "b"], draw(st.sampled_from([["a", "+", "b"], ["b"], ["b", "a"]]))))
+            tab.append(M("F", ["a"], draw(st.sampled_from([["G", "(", "a", ")"], ["G", "(", "a", ")", "a", "##", "1"], ["a", "G", "(", "a", ")"]]))))
+            tab.append(M("H", ["a"], ["F", "(", "a", ")"]))
+            inv = draw(st.sampled_from([["F", "(", "X", ")"], ["H", "(", "X", ")"], ["G", "(", "X", ")"], ["F", "(", "X", ")", "X"]]))
+        tab = draw(st.permutations(tab))
+        return {"table": list(tab), "inv": inv}
+
+    return case()
+
+
 def _join_args(args):
     out = []
     for i, a in enumerate(args):
@@ -471,9 +522,11 @@ def _rand_shard(seed, n, known):
     res = Result()
     cases = []
 
+    from hypothesis import strategies as st_
+
     @hypothesis.seed(seed)
     @settings(max_examples=n, database=None, deadline=None, suppress_health_check=list(HealthCheck), phases=[hypothesis.Phase.generate])
-    @given(case_strategy())
+    @given(st_.one_of(case_strategy(), case_strategy(), case_strategy(), scenario_strategy()))
     def collect(c):
         cases.append(c)
 
